@@ -204,6 +204,7 @@ func runLBAff(x *X) {
 	var lastID identity
 	haveLast := false
 	lastRemoved := ""
+	crowdDone := false
 	traffic := func(concurrent bool) {
 		k := 8 + c.Intn(40, "ntraffic")
 		if concurrent {
@@ -264,7 +265,49 @@ func runLBAff(x *X) {
 	traffic(false)
 	nOps := 2 + c.Intn(6, "nops")
 	for i := 0; i < nOps && !x.dead; i++ {
-		switch c.Pick([]int{4, 3, 2, 2, 2, 2}, "op") {
+		crowdW := 0
+		if !crowdDone && c.Intn(4, "crowd-possible") == 0 {
+			crowdW = 2
+		}
+		switch c.Pick([]int{4, 3, 2, 2, 2, 2, crowdW}, "op") {
+		case 6: // one client with a hundred and more requests in flight (a scraper, a batch job): however
+			// busy its backend is, the next request of that client goes where the others went
+			crowdDone = true
+			id := ids[c.Intn(len(ids), "crowd-id")]
+			n := 100 + c.Intn(30, "crowd-n")
+			var plans []*reqPlan
+			var held []simResult
+			for j := 0; j < n && !x.dead; j++ {
+				p := &reqPlan{hold: true}
+				plans = append(plans, p)
+				sp := specOf(id)
+				sp.plan = p
+				s.Spawn("crowd", func() {
+					r := h.do(sp)
+					x.mu.Lock()
+					held = append(held, r)
+					x.mu.Unlock()
+				})
+			}
+			x.Settle(onErr)
+			for j := 0; j < 2 && !x.dead; j++ {
+				var r simResult
+				sp := specOf(id)
+				x.Do("req", func() { r = h.do(sp) }, onErr)
+				note(id, r)
+			}
+			net.mu.Lock()
+			for _, p := range plans {
+				p.released = true
+			}
+			net.mu.Unlock()
+			x.RunTasks(onErr)
+			for _, r := range held {
+				note(id, r)
+			}
+			x.Probe("one-client-with-a-crowd-in-flight")
+			hist = append(hist, fmt.Sprintf("crowd(%d)", n))
+			continue
 		case 5: // the operator switches to another strategy and back: same members, same mapping
 			other := strategies[c.Intn(5, "via-strategy")]
 			x.Do("switch", func() {
